@@ -94,9 +94,18 @@ def status_stream(R, drv, rng, tier):
     dud = vlib.build_dud()
     cases = []
     for i in range(24 if tier == "quick" else 300):
-        c = gen.pipeline_project(rng, "def-%d" % i, rng.choice([1, 2, 3]), tier="quick")
+        c = gen.pipeline_project(rng, "def-%d" % i, rng.choice([1, 2, 3]), tier="quick", sink=(i % 4 == 1))
+        if i % 8 == 1 and c["stages"][-1][1].get("out"):
+            # the leaf has a command, inputs owned by other stages and NO output at all: nothing to cache, a definition all the same
+            sp_, st_ = c["stages"][-1]
+            srcs_ = [p_ for p_, fl_ in st_.get("in", [])]
+            c["stages"][-1] = (sp_, dict(cmd=b"vprobe S%d -- " % (len(c["stages"]) - 1) + b" ".join(srcs_), wd=b".", out=[], **{"in": st_.get("in", [])}))
         names = [sp for sp, st in c["stages"]]
-        ops = [("run", False, []), ("commit", rng.choice("lc"), []), ("status", [])]
+        ops = [("run", False, [])]
+        if i % 4 == 2:
+            # a dud killed while rewriting a stage file left `<stage>.tmp` behind, longer than the stage file will be
+            ops += [("staletmp", nm_, str(rng.choice([200, 5000]))) for nm_ in names]
+        ops += [("commit", rng.choice("lc"), []), ("status", [])]
         for _ in range(rng.choice([1, 1, 2])):
             k = rng.randrange(len(names))
             cur = c["stages"][k][1]["cmd"]
@@ -130,6 +139,21 @@ def status_stream(R, drv, rng, tier):
             if op[0] == "setcmd":
                 edited.add(op[1])
             elif op[0] == "commit" and st["rc"] == 0:
+                # what a successful commit wrote is a stage file: it loads again, and holds exactly the declared artifacts
+                for sp_, stg_ in run["case"]["stages"]:
+                    d_ = st["snap"]["stages"].get(sp_)
+                    want_ = (sorted(p_.decode() for p_, fl_ in stg_.get("in", [])), sorted(p_.decode() for p_, fl_ in stg_.get("out", [])))
+                    if d_ is None or d_[1] is None:
+                        v.append(("stage-file-unloadable", "after a successful `%s` the stage file %s cannot be loaded: %r" % (
+                            s1.op_text(op), sp_.decode(), (d_[0][-120:] if d_ else None))))
+                    else:
+                        got_ = (sorted(str(x) for x in (d_[1].get("inputs") or {})), sorted(str(x) for x in (d_[1].get("outputs") or {})))
+                        if got_ != want_ or any(k_ not in ("checksum", "command", "working-dir", "inputs", "outputs") for k_ in d_[1]):
+                            v.append(("stage-file-differs", "after a successful `%s` the stage file %s lists %s / keys %s, declared: %s" % (
+                                s1.op_text(op), sp_.decode(), got_, sorted(d_[1]), want_)))
+                if k + 1 < len(steps) and steps[k + 1]["op"][0] == "status" and steps[k + 1]["rc"] != 0:
+                    v.append(("status-fails-after-commit", "`dud status` straight after a successful `%s` fails: %s" % (
+                        s1.op_text(op), steps[k + 1]["stderr"][-160:])))
                 if not op[2]:
                     edited = set()
                 else:
